@@ -5,10 +5,11 @@ import PoaVerif.Lemmas.Quiet2.St
 namespace PoaVerif
 namespace App
 
-/-- block-level side conditions at the EndBlocker: the index fits under the cap (no D7), no zero-power entry shadows
-    a live validator (no D6), powers within CometBFT's maximum -/
+/-- block-level side conditions at the EndBlocker: the index entries of candidates (un-jailed records with positive
+    power; entries of unbonding records, at power 0, do not count: the first loop ends before it reaches them) fit under the
+    cap (no D7), no zero-power entry shadows a live validator (no D6), powers within CometBFT's maximum -/
 structure Fits2 (s : App) (c : CSet) : Prop where
-  cap : s.index.length ≤ s.params.maxVals
+  cap : candCount s s.index ≤ s.params.maxVals
   shadow : noShadow s s.index = true
   total : Comet.total c + idxPow s s.index ≤ maxTotalPower
   lastTotal : 0 ≤ s.lastTotal ∧ s.lastTotal ≤ maxTotalPower
@@ -89,10 +90,7 @@ theorem pre_of_St (s : App) (c : CSet) (m : St s) (k : Cm s c) (f : Fits2 s c) :
       by_cases hu : v.op ∈ s.updated
       · have := (io.a2 hu).2.1; rw [hvop] at this; exact ⟨by omega, fun _ => hl⟩
       · have := io.a1 ha hu; rw [hvop] at this; exact ⟨by omega, fun _ => hl⟩
-    noCut := by
-      have h1 : candCount s s.index ≤ s.index.length := by unfold candCount; exact List.length_filter_le _ _
-      have := f.cap
-      omega }
+    noCut := f.cap }
   refine ⟨{ toPreLoop := hpl, shadow := f.shadow, lastNodup := ksorted_nodup _ m.lastSorted, lastEx := m.lastOnly, silent := ?_, leaving := ?_, cometKnown := ?_, bondedKnown := ?_ }, ?_, ?_⟩
   · intro op v hv hc h1 _
     have hvop := getVal_op _ _ _ hv
